@@ -667,6 +667,16 @@ class Check:
                 for i, nm in enumerate(fl):
                     cand[nm] = pat[i % len(pat)]
                 yield cand
+            # ... and a single non-finite component at each position in turn (is_finite / is_nan clauses)
+            if len(fl) <= 20:
+                for special in (float('inf'), float('nan')):
+                    for nm in fl:
+                        cand = {k: first_model.get(k) for k, _ in order}
+                        for k in fl:
+                            if cand.get(k) is None:
+                                cand[k] = Fraction(1)
+                        cand[nm] = special
+                        yield cand
         if o.get('exact_replay'):
             # operations are uninterpreted in this mode, so the solver's model says nothing about rounding: also try
             # inputs whose quotients and products are inexact
